@@ -19,8 +19,13 @@ kanirun.META.update({
 
 kanirun.DIRS.update({
     "C05": ["graph", "C05"],
-    "C06": ["graph", "C06"],
+    "C06": ["graph", "C07", "C06"],
     "C08": ["graph", "proto", "C08"],
+    "C01": ["map", "C01"],
+    "C02": ["map", "C02"],
+    "C13": ["map", "C13"],
+    "C07": ["proto", "C07"],
+    "C09": ["C10", "proto", "C09"],
     "C15": ["proto", "C15"],
 })
 
@@ -105,5 +110,21 @@ kanirun.META["C15"] = {
 kanirun.META["C14"] = {
     "bounds": "kernel: two reloader identities, every nesting of depth 3 over {record(r1), record(r2), no_record}, five reads each issued by either reloader (2^5 x 3^3 programs); file / directory / asset record kinds; cache level: see harness list",
     "outside": "helper threads (the thread-local is a plain static in Kani: 'another thread' = 'no active record'); panics (no unwinding in Kani); nesting deeper than 3",
+    "assumptions": COMMON_ASSUME,
+}
+
+kanirun.META["C01"] = {
+    "bounds": "map level: one shard, ids {a,b}, <= 3 insertions incl. a same-key race (device S3: the racing thread's whole operation runs at the only unlocked point), adversarial relocation of table entries on every insert, all 64-bit values; shard selection: symbolic seed (see harness list)",
+    "outside": "real hashbrown (model table), more than 2 racers, std locks, ahash-off build, real scheduling; load-level races (cache-level harnesses are thorough-only)",
+    "assumptions": COMMON_ASSUME,
+}
+kanirun.META["C02"] = {
+    "bounds": "map level: sharded and local map, ids {a,b}, one stored type plus one foreign type, scripts of <= 4 operations from {insert, get, contains, take, remove, clear} with a solver-chosen branch, all 64-bit values",
+    "outside": "longer sequences, larger alphabets, directory loads (C11), load / load_owned through a Source (thorough only)",
+    "assumptions": COMMON_ASSUME,
+}
+kanirun.META["C09"] = {
+    "bounds": "a failing Compound::load on a cache with a reloader: error returned, nothing cached, nothing registered with the reloader; recording cell restored (C14 kernel); the reloader still answers after processing (thorough)",
+    "outside": "panics (Kani has no unwinding: CellGuard on unwind, poison-ignoring locks); io::Error kinds through load_from_source (thorough only)",
     "assumptions": COMMON_ASSUME,
 }
